@@ -6,11 +6,12 @@ from props import _auto
 LEAN_MODULES = _auto.lean_modules("C17")
 VARIANTS = ["default", "force32"]
 BUILD_FAILURE_IS_VIOLATION = {"force32": True}
-RULE = ("unit generators gen_C17 plus the C12, C13, C14, C15 workloads (ops that exist in both backends), run through the default and "
+RULE = ("unit generators gen_C17 plus the C12, C13, C14, C15 workloads of the same tier (ops that exist in both backends; thorough: every "
+        "case; quick: every 2nd / 2nd / 2nd / 3rd case WITHIN each (op, kind) class, the first of each class always kept), run through the default and "
         "the force-32bits builds and compared byte for byte with each other and with the Spec; non-trivial = any; distinct = distinct case lines")
 TRUSTED = ["hand-written Lean models tied to the code by the correspondence run",
-           "field and scalar layers of the 32-bit backend are proved (Props/C17/B32, Sc32, KernelTieB32); the group and protocol layers on the 32-bit backend "
-           "(ge.rs, ladder, ed25519 over fe32) are compared by running both builds, not by a refinement proof"]
+           "field, scalar, group, ladder and protocol layers of the 32-bit backend are proved equal to the Spec (Props/C17/B32, Sc32, Group32) and "
+           "translated from the source under the force-32bits cfg table and tied (KernelTieB32, GlueTieRest, GlueTieCurve32); both builds are also run"]
 PROOF_SCOPE = 'partial by nature: field and scalar layers of both backends are proved equivalent (incl. ref10 sc_reduce/sc_muladd); the group/protocol layers on the 32-bit backend are compared by running both builds; which backend a target selects is a build matter'
 ASSUMPTIONS = []
 nontrivial = _auto.default_nontrivial
@@ -31,7 +32,10 @@ def in_domain(line):
 def gen(tier, rng):
     yield from _auto.make_gen("C17")(tier, rng)
     for prop, k in (("C12", 2), ("C13", 2), ("C14", 2), ("C15", 3)):
-        kk = k if tier == "quick" else 1
-        for i, (line, kind) in enumerate(_auto.make_gen(prop, also=False)(tier, rng)):
-            if i % kk == 0 and not line.startswith(ONLY64) and in_domain(line):
+        def src(prop=prop):
+            for line, kind in _auto.make_gen(prop, also=False)(tier, rng):
                 yield (line, f"{prop}/{kind}")
+        # quick: every k-th case WITHIN each (op, kind) class of the ops both backends have (the first of each class is always
+        # kept, so no op and no kind of the C12-C15 workloads is lost); thorough: all of them
+        yield from _auto.thin(src(), k if tier == "quick" else 1,
+                              keep=lambda line, kind: not line.startswith(ONLY64) and in_domain(line))
